@@ -7,3 +7,4 @@ CONSTANTS
   PingMul = 2
   MaxErrInf = 1
   MaxErrPing = 0
+  MaxBurst = 11
